@@ -85,7 +85,12 @@ def subrecipes(n):
 def ops_of(n):
     s = set()
     for m in subrecipes(n):
-        s.add(m.op if m.op not in ("fn", "cmp", "bessel") else f"{m.op}:{m.a if m.op != 'bessel' else m.a[0]}")
+        if m.op in ("fn", "cmp"):
+            s.add(f"{m.op}:{m.a.split(':')[0]}")
+        elif m.op == "bessel":
+            s.add(f"bessel:{m.a[0]}")
+        else:
+            s.add(m.op)
     return s
 
 
@@ -317,7 +322,7 @@ def stack(rows):
     arrs = np.broadcast_arrays(*arrs)
     out = np.empty((len(rows),) + arrs[0].shape, dtype=object)
     for k, r in enumerate(arrs):
-        out[k] = r
+        out[k] = r[()] if r.ndim == 0 else r
     return LT(out, rows[0].rank + 1, fi, _bits(*rows))
 
 
@@ -532,7 +537,7 @@ class Den:
         self.pert = pert  # None or a random.Random: relative 1e-13 perturbation of all terminal data
         self.dlevel = dlevel
         if _shared is None:
-            _shared = {"flags": set(), "maxabs": 0.0, "pert_x": None}
+            _shared = {"flags": set(), "maxabs": 0.0, "pertf": {}}
             if pert is not None:
                 self.x = tuple(v * (1 + MP.mpf(pert.uniform(-1, 1)) * MP.mpf(10) ** -13) for v in self.x)
         self.sh = _shared
@@ -561,6 +566,8 @@ class Den:
             return self.memo[key]
         r = getattr(self, "op_" + n.op)(n)
         if isinstance(r, LT):
+            for v in r.arr.flat:
+                assert not isinstance(v, np.ndarray), (n.op, n.a)
             if self.dlevel:
                 r.bits = None
             m = 0.0
@@ -583,7 +590,13 @@ class Den:
 
     def op_coef(self, n):
         f = self.env[n.a]
-        arr = f.mp_value(self.x, MP, self.pert)
+        arr = f.mp_value(self.x, MP)
+        if self.pert is not None:
+            fac = self.sh["pertf"].get(n.a)
+            if fac is None:
+                fac = omap(lambda _: 1 + MP.mpf(self.pert.uniform(-1, 1)) * MP.mpf(10) ** -13, arr)
+                self.sh["pertf"][n.a] = fac
+            arr = omap(lambda p, q: p * q, arr, fac)
         return LT(arr, len(f.shape), (), f.bits if self.pert is None else None)
 
     def op_x(self, n):
@@ -702,7 +715,7 @@ class Den:
         return getitem(self.ev(n.kids[0]), n.a)
 
     def op_as_tensor_idx(self, n):
-        return as_tensor_idx(self.ev(n.kids[0]), n.a)
+        return as_tensor_idx(self.ev(n.kids[0]), n.a[0])
 
     def op_stack(self, n):
         return stack([self.ev(k) for k in n.kids])
@@ -797,7 +810,7 @@ class Den:
         if a.rank or b.rank or a.fi or b.fi:
             raise Reject("comparison of non-scalars")
         p, q = a.arr[()], b.arr[()]
-        rel = n.a
+        rel = n.a.split(":")[0]
         exact = a.bits is not None and b.bits is not None
         if rel in ("eq", "ne"):
             same = p == q
@@ -931,7 +944,8 @@ class Den:
         r = parts[0].rank
         out = np.empty(parts[0].arr.shape[:r] + (d,) + parts[0].arr.shape[r:], dtype=object)
         for k in range(d):
-            out[(slice(None),) * r + (k,)] = parts[k].arr
+            pk = parts[k].arr
+            out[(slice(None),) * r + (k,)] = pk[()] if pk.ndim == 0 else pk
         return LT(out, r + 1, parts[0].fi, None)
 
     def op_grad(self, n):
@@ -990,6 +1004,11 @@ class Den:
             out[1] = -a[0]
             return LT(out, 1, (), None)
         raise Reject("curl of this shape")
+
+    def op_dxi(self, n):
+        """a.dx(i) with one free Index i as direction."""
+        g = self._grad(n.kids[0])
+        return getitem(g, (("ell",), ("idx", n.a[0])))
 
     def op_dx(self, n):
         """a.dx(k1, k2, ...) with fixed directions."""
